@@ -279,11 +279,13 @@ Lvl(e) == CASE e.k \in {"lit", "par", "loc", "cast"} -> 0 [] e.k \in {"neg", "no
 
 RECURSIVE ShowX(_, _)
 Paren(s) == "(" \o s \o ")"
-\* nc = TRUE drops every cast (used only to derive ill-typed variants for the no-crash clause)
+\* nc: "std" = the program itself.  The other modes derive variants for the no-crash /
+\* "accepted programs validate" clauses only (no expected value is attached to them):
+\* "nocast" drops every cast (mixed widths), "bare" prints literals without their type.
 ShowX(e, nc) ==
-    CASE e.k = "lit" -> e.t \o "(" \o ToString(e.v) \o ")"
+    CASE e.k = "lit" -> IF nc = "bare" THEN ToString(e.v) ELSE e.t \o "(" \o ToString(e.v) \o ")"
       [] e.k \in {"par", "loc"} -> e.n
-      [] e.k = "cast" -> IF nc THEN ShowX(e.e, nc) ELSE e.t \o "(" \o ShowX(e.e, nc) \o ")"
+      [] e.k = "cast" -> IF nc = "nocast" THEN ShowX(e.e, nc) ELSE e.t \o "(" \o ShowX(e.e, nc) \o ")"
       [] e.k = "neg" -> "-" \o (IF Lvl(e.e) > 2 THEN Paren(ShowX(e.e, nc)) ELSE ShowX(e.e, nc))
       [] e.k = "not" -> "not " \o (IF Lvl(e.e) > 2 THEN Paren(ShowX(e.e, nc)) ELSE ShowX(e.e, nc))
       [] e.k = "bin" ->
@@ -294,7 +296,7 @@ ShowX(e, nc) ==
                 pr == Lvl(e.r) >= lv
             IN (IF pl THEN Paren(ShowX(e.l, nc)) ELSE ShowX(e.l, nc)) \o " " \o e.op \o " " \o
                (IF pr THEN Paren(ShowX(e.r, nc)) ELSE ShowX(e.r, nc))
-ShowE(e) == ShowX(e, FALSE)
+ShowE(e) == ShowX(e, "std")
 
 RECURSIVE ShowSS(_, _, _)
 RECURSIVE ShowArms(_, _, _, _)
@@ -316,5 +318,5 @@ ShowPs(ps, i) == IF i > Len(ps) THEN ""
                  ELSE (IF i > 1 THEN ", " ELSE "") \o ps[i].n \o " " \o ps[i].t \o ShowPs(ps, i + 1)
 \* general form: parameter list, declared return type, body, cast dropping
 ShowG(ps, ret, body, nc) == "func f(" \o ShowPs(ps, 1) \o ") " \o ret \o " {\n" \o ShowSS(body, "    ", nc) \o "}\n"
-Show(prog) == ShowG(prog.ps, prog.ret, prog.body, FALSE)
+Show(prog) == ShowG(prog.ps, prog.ret, prog.body, "std")
 =============================================================================
